@@ -688,15 +688,31 @@ impl<T> LockFreeStack<T> {
     }
 
     fn push(&self, item: T) {
+        #[cfg(feature = "verif-hooks")]
+        crate::verif_hooks::sched_point(crate::verif_hooks::site::SP_PUSH_AFTER_HEAD_LOAD);
         self.items.lock().push(item);
     }
 
     fn pop(&self) -> Option<T> {
-        self.items.lock().pop()
+        #[cfg(feature = "verif-hooks")]
+        crate::verif_hooks::sched_point(crate::verif_hooks::site::SP_POP_AFTER_HEAD_LOAD);
+        let item = self.items.lock().pop();
+        #[cfg(feature = "verif-hooks")]
+        crate::verif_hooks::sched_point(crate::verif_hooks::site::SP_POP_AFTER_NEXT_READ);
+        item
     }
 
     fn is_empty(&self) -> bool {
         self.items.lock().is_empty()
+    }
+
+    /// Verification hook: visit every element (quiescent use only).
+    #[cfg(feature = "verif-hooks")]
+    fn verif_for_each(&mut self, mut f: impl FnMut(&T)) -> std::result::Result<(), String> {
+        for item in self.items.get_mut().iter() {
+            f(item);
+        }
+        Ok(())
     }
 }
 
@@ -896,6 +912,8 @@ impl SecureMemoryPool {
             });
         }
 
+        #[cfg(feature = "verif-hooks")]
+        crate::verif_hooks::sched_point(crate::verif_hooks::site::SP_ALLOC_AFTER_LOCAL);
         // Try global stack
         if let Some(chunk) = self.global_stack.pop() {
             self.cross_thread_steals.fetch_add(1, Ordering::Relaxed);
@@ -1203,6 +1221,20 @@ impl SecureMemoryPool {
         self.active_allocations.clear();
 
         Ok(())
+    }
+
+    /// Verification hook: addresses of all chunks currently parked in the pool
+    /// (global stack and every thread-local cache). Quiescent use only.
+    #[cfg(feature = "verif-hooks")]
+    pub fn verif_free_chunks(&mut self) -> std::result::Result<Vec<usize>, String> {
+        let mut out = Vec::new();
+        self.global_stack.verif_for_each(|c| out.push(c.as_ptr() as usize))?;
+        for cache in self.local_caches.iter_mut() {
+            for c in cache.get_mut().chunks.iter() {
+                out.push(c.as_ptr() as usize);
+            }
+        }
+        Ok(out)
     }
 
     /// Get pool configuration
